@@ -48,6 +48,9 @@ const (
 	ReqTimerNew                        // val = *TimerSpec; n = delay ns; reply.n = timer id
 	ReqTimerStop                       // n = id; reply.n = 1 if it was active
 	ReqTimerReset                      // n = id, addr = delay ns; reply.n = 1 if it was active
+	ReqChanAdopt                       // addr = channel, n = cap, val = []any buffered before the simulation started
+	ReqGC                              // the library asked for a collection (runtime.GC, debug.FreeOSMemory)
+	ReqMemInfo                         // reply.n = pressure level<<48 | process GC count<<32 | live tasks
 )
 
 // Sync operation kinds (request.n of a ReqSync), used for statistics only.
@@ -129,6 +132,7 @@ type Task struct {
 	blockEpoch int64
 	blockAddr  uintptr
 	pend       reply // value part of the next reply
+	reqs       int64 // requests other than plain yields this task has made (sync operations, pool, clock, channels...)
 	prio       int
 	parent     int
 	fn         func() // body for spawned (library-created) tasks
@@ -451,6 +455,100 @@ var SimEpoch = func() int64 {
 	}
 	return 1700000000e9
 }()
+
+// ---- process metrics seam (runtime.ReadMemStats, NumGoroutine, GC, debug.SetGCPercent) ----
+//
+// What the host process looks like from inside - heap size, number of
+// goroutines, collector cycles - is not a function of the input. A run lives at
+// one of four pressure levels (a seeded per-run decision, recorded in the
+// trace); level 0 is a small quiet process, the others a host with a large heap,
+// many goroutines and many collector cycles behind it.
+
+var memHeap = [4]uint64{6 << 20, 600 << 20, 5 << 30, 70 << 30}
+var memExtraG = [4]int{0, 500, 20000, 1000000}
+
+func memInfo() (level int, gcs uint32, live int) {
+	n, _, ok := Ask(ReqMemInfo, OpClock, 0, 0, nil)
+	if !ok {
+		return 0, 0, 1
+	}
+	return int(n >> 48), uint32(n>>32) & 0xffff, int(n & 0xffffffff)
+}
+
+// NumGoroutine replaces runtime.NumGoroutine.
+func NumGoroutine() int {
+	if unmanaged {
+		return runtime.NumGoroutine()
+	}
+	level, _, live := memInfo()
+	return 1 + live + memExtraG[level]
+}
+
+// ReadMemStats replaces runtime.ReadMemStats.
+func ReadMemStats(m *runtime.MemStats) {
+	if unmanaged {
+		runtime.ReadMemStats(m)
+		return
+	}
+	level, gcs, _ := memInfo()
+	st := uint64(readSteps())
+	*m = runtime.MemStats{}
+	m.HeapAlloc = memHeap[level]
+	m.Alloc = m.HeapAlloc
+	m.HeapInuse = m.HeapAlloc + m.HeapAlloc/8
+	m.HeapIdle = m.HeapAlloc / 4
+	m.HeapSys = m.HeapInuse + m.HeapIdle
+	m.HeapReleased = m.HeapIdle / 2
+	m.HeapObjects = m.HeapAlloc / 96
+	m.StackInuse = 1 << 20
+	m.StackSys = 1 << 20
+	m.Sys = m.HeapSys + 16<<20
+	m.TotalAlloc = m.HeapAlloc + st*48
+	m.Mallocs = m.HeapObjects + st/2
+	m.Frees = st / 2
+	m.NumGC = gcs + uint32(level)*4000
+	m.NumForcedGC = gcs
+	m.NextGC = 2 * m.HeapAlloc
+	m.PauseTotalNs = uint64(m.NumGC) * 120000
+	m.LastGC = uint64(SimEpoch)
+	m.GCCPUFraction = 0.004 * float64(1+level*4)
+	m.GCSys = m.HeapSys / 32
+	m.EnableGC = true
+}
+
+// GC replaces runtime.GC and debug.FreeOSMemory: the collection happens, as a
+// step of the simulation (finalizers it makes due become tasks).
+func GC() {
+	if unmanaged {
+		runtime.GC()
+		return
+	}
+	if _, _, ok := Ask(ReqGC, OpClock, 0, 0, nil); !ok {
+		runtime.GC()
+	}
+}
+
+var simGCPercent, simMemLimit int64 = 100, 1<<63 - 1
+
+// DebugSetGCPercent replaces debug.SetGCPercent: the collector stays under the
+// scheduler's control; the value is remembered and returned like the real one.
+//
+//go:norace
+func DebugSetGCPercent(p int) int { o := simGCPercent; simGCPercent = int64(p); return int(o) }
+
+// DebugSetMemoryLimit replaces debug.SetMemoryLimit.
+//
+//go:norace
+func DebugSetMemoryLimit(l int64) int64 {
+	o := simMemLimit
+	if l >= 0 {
+		simMemLimit = l
+	}
+	return o
+}
+
+// DebugFreeOSMemory replaces debug.FreeOSMemory.
+func DebugFreeOSMemory() { GC() }
 
 // ---- finalizer seam ----
 //
